@@ -292,7 +292,7 @@ func TestWiring(t *testing.T) {
 			N:        rapid.SampledFrom([]int{1, 2, 2, 3, 4, 5, 10, 12}).Draw(rt, "n"),
 			Period:   time.Duration(rapid.SampledFrom([]int{0, 0, 1, 3, 7}).Draw(rt, "period_s")) * time.Second,
 			Interval: time.Duration(rapid.SampledFrom([]int{0, 1, 1, 2}).Draw(rt, "interval_s")) * time.Second,
-			Cooldown: time.Duration(rapid.SampledFrom([]int{0, 2, 5, 300}).Draw(rt, "cooldown_s")) * time.Second,
+			Cooldown: time.Duration(rapid.SampledFrom([]int{0, 2, 5, 300, 45, 100, 31, 59}).Draw(rt, "cooldown_s")) * time.Second,
 		}
 		script := genRuns(s.N).Draw(rt, "script")
 		if len(script) > 60 {
